@@ -297,10 +297,12 @@ pub fn b_state(op: u8) {
     let rows = nd::usize_();
     let idx = nd::usize_();
     nd::assume((cols == 0) == (rows == 0));
-    nd::assume(op < 2 || (cols <= 8 && rows <= 8));
+    let medium = cols <= 4096 && rows <= 4096 && cols.saturating_mul(rows) <= (1 << 20);
+    nd::assume(op < 2 || medium);
     let mk = || if cols == 0 { TooDee::<u8>::default() } else { TooDee::from_vec(cols, rows, grid(cols, rows)) };
     if op == 4 {
         // Clone::clone_from(&mut self, source) with a Clone that crashes at its k-th call, over a handful of source shapes
+        nd::assume(cols <= 8 && rows <= 8);
         let pc = |c: usize, r: usize| -> TooDee<PClone> {
             if c == 0 { TooDee::default() } else { TooDee::from_vec(c, r, (0..c * r).map(|i| PClone(i as u8)).collect()) }
         };
@@ -320,33 +322,31 @@ pub fn b_state(op: u8) {
         return;
     }
     if op >= 2 {
+        // a drain is created (or the call is rejected) and leaked; u8 elements, then zero-sized ones
         let mut t = mk();
-        let r = std::panic::catch_unwind(std::panic::AssertUnwindSafe(|| {
-            if op == 2 {
-                core::mem::forget(t.remove_row(idx));
-            } else {
-                core::mem::forget(t.remove_col(idx));
-            }
+        let _ = std::panic::catch_unwind(std::panic::AssertUnwindSafe(|| match op {
+            2 => core::mem::forget(t.remove_row(idx)),
+            3 => core::mem::forget(t.remove_col(idx)),
+            5 => core::mem::forget(t.pop_row()),
+            _ => core::mem::forget(t.pop_col()),
         }));
         assert!(inv_u8(&t), "ORACLE: shape invariant broken after a leaked drain / rejected remove");
-        // the same with zero-sized elements (`size_of::<T>() == 0` paths)
         let mut z: TooDee<()> = if cols == 0 { TooDee::default() } else { TooDee::from_vec(cols, rows, vec![(); cols * rows]) };
-        let _ = std::panic::catch_unwind(std::panic::AssertUnwindSafe(|| {
-            if op == 2 {
-                core::mem::forget(z.remove_row(idx));
-            } else {
-                core::mem::forget(z.remove_col(idx));
-            }
+        let _ = std::panic::catch_unwind(std::panic::AssertUnwindSafe(|| match op {
+            2 => core::mem::forget(z.remove_row(idx)),
+            3 => core::mem::forget(z.remove_col(idx)),
+            5 => core::mem::forget(z.pop_row()),
+            _ => core::mem::forget(z.pop_col()),
         }));
         let (c, r) = (z.num_cols(), z.num_rows());
         assert!(c.checked_mul(r) == Some(z.data().len()) && (c == 0) == (r == 0), "ORACLE: shape invariant broken after a leaked drain / rejected remove (zero-sized elements)");
         end_reached!();
         return;
     }
-    if cols > 8 || rows > 8 {
+    if !medium {
         // astronomically large array: only constructible with zero-sized elements; the inserted line is
         // the matching one (its fill loop must be short enough to run)
-        nd::assume(cols.checked_mul(rows).is_some() && (cols == 0) == (rows == 0));
+        nd::assume(cols.checked_mul(rows).is_some());
         let line = if op == 0 { cols } else { rows };
         nd::assume(line <= 4096);
         let mut t: TooDee<()> = TooDee::from_vec(cols, rows, vec![(); cols * rows]);
@@ -366,7 +366,12 @@ pub fn b_state(op: u8) {
     let lines: [usize; 3] = [line, 1, 3];
     for have in lines {
         for claimed in [have, have.wrapping_sub(1), have + 1, usize::MAX] {
-            for k in 0..(have + 3) {
+            // every crash point for short lines, the first few and the last few for long ones
+            let mut ks: Vec<usize> = (0..(have + 3)).collect();
+            if have > 16 {
+                ks = vec![0, 1, 2, 3, have / 2, have - 1, have, have + 1, have + 2];
+            }
+            for k in ks {
                 let mut t = mk();
                 let it = Faulty { items: vec![7u8; have], claimed, calls: 0, crash_at: k };
                 let _ = std::panic::catch_unwind(std::panic::AssertUnwindSafe(|| {
